@@ -240,6 +240,13 @@ def client_record(seed, with_lists=True):
             crow[c] = 0
         crow["percent_expected_vote"] = rnd.choice([0, 100])
         cur = pd.concat([cur, pd.DataFrame([crow])], ignore_index=True)
+    if seed % 3 == 1:
+        # a baseline unit whose feed row carries votes but no expected-vote percentage (the provider has not estimated it
+        # yet): neither at nor below the threshold - it must not reach the model as an outstanding unit with undefined
+        # clipping bounds (seeded change C06_H)
+        j = int(cur.index[cur.percent_expected_vote < 100][0]) if (cur.percent_expected_vote < 100).any() else 0
+        cur["percent_expected_vote"] = cur["percent_expected_vote"].astype(float)
+        cur.loc[j, "percent_expected_vote"] = float("nan")
     office = "H" if district else "G"
     gut = "precinct-district" if district else "precinct"
     aggs = ["postal_code", "county_fips"] if not district else ["postal_code", "district", "county_fips"]
